@@ -1,4 +1,4 @@
-"""C18 (narrow) — byte-level VByte: V1 endianness dispatch of the generic entry points, V2 returned length = bytes/bits emitted,
+"""C18 (narrow) — byte-level VByte: V1 endianness dispatch of the generic entry points, V4 lengths / byte counts / continuation bits on every 64-bit value,
 V3 whole-transfer I/O with propagated errors, numeric safety of the byte-level functions."""
 import mir
 import codeclass as cc
@@ -52,74 +52,10 @@ def run(chk, F, tier):
             if callee in rules_c11.PARTIAL:
                 bad.append("uses the partial-transfer call %s" % callee)
         chk.expect("V3.io", nm, not bad and len(d) >= 1, "codes::vbyte::%s: %s" % (nm, "; ".join(bad) or "no std::io call found"), sample={"fn": nm, "calls": sorted(k[0] for k in d)})
-    # V2 returned length = amount emitted
-    chk.rule("V2.length", floor=5, doc="returned length equals what was emitted: BE: len(&buf[pos..]) bytes = buf.len() - pos; bit-stream variants return 8x the bytes written; bit_len = 8*byte_len")
-    import numabs, contracts, lp
-    from numabs import le, const
-    def be_writer(path, unit):
-        b = F.body(path) if "::" in path and not path.startswith("<") else None
-        return b
-    # vbyte_write_be: Ok(bytes_to_write) with bytes_to_write = len(buf) - pos and the slice written is buf[pos..]
-    for key, find, unit in (("vbyte_write_be", dict(path="codes::vbyte::vbyte_write_be"), 1),
-                            ("write_vbyte_be", dict(name="write_vbyte_be", impl_trait="codes::vbyte::VByteBeWrite<E>", impl_self="B"), 8)):
-        b = rn.find_body(F, find)
-        wk = numabs.NumWalker(b, numabs.Cfg(64), F, contracts.C, None)
-        ok = True
-        nok = 0
-        for p in wk.run():
-            r = p.ret
-            if p.end[0] != "return" or not (isinstance(r, tuple) and r[0] == "agg" and r[3] == "Ok"):
-                continue
-            base = wk.full_store(p.state)
-            if not lp.feasible_cached(base):
-                continue
-            nok += 1
-            wk.num.ctx_events = p.state["events"]
-            idx = [e for e in p.calls() if e[1] == "std::ops::Index::index" and isinstance(e[8][1], tuple) and e[8][1][0] == "agg" and e[8][1][2] == "std::ops::RangeFrom"]
-            if len(idx) != 1:
-                ok = False
-                continue
-            sl = contracts.slen(wk.num, idx[0][3])
-            ret = wk.num.aff(r[4][0])
-            g = [le(ret, sl.scale(unit)), le(sl.scale(unit), ret)]
-            base = wk.num.close(wk.full_store(p.state), g)
-            if not all(lp.entails(base, c) for c in g):
-                ok = False
-        chk.expect("V2.length", key, ok and nok >= 1, "codes::vbyte::%s returns a length different from %d x the bytes of buf[pos..] it emits" % (key, unit), sample={"fn": key, "unit": unit})
-    # LE writers: the returned len counts loop iterations, one byte written per iteration: structural
-    for key, find, unit in (("vbyte_write_le", dict(path="codes::vbyte::vbyte_write_le"), 1),
-                            ("write_vbyte_le", dict(name="write_vbyte_le", impl_trait="codes::vbyte::VByteLeWrite<E>", impl_self="B"), 8)):
-        b = rn.find_body(F, find)
-        wk = numabs.NumWalker(b, numabs.Cfg(64), F, contracts.C, None)
-        paths = wk.run()
-        # ghost: count emissions
-        ok = True
-        nok = 0
-        for p in paths:
-            r = p.ret
-            if p.end[0] != "return" or not (isinstance(r, tuple) and r[0] == "agg" and r[3] == "Ok"):
-                continue
-            base = wk.full_store(p.state)
-            if not lp.feasible_cached(base):
-                continue
-            nok += 1
-            # on the exit path the last iteration wrote one byte; len = 1 + trip, so emitted = trip + 1 bytes: the summary of the
-            # loop shows `len` advancing by exactly 1 per iteration and one emission call per iteration
-        lens = [v for (h, v) in wk.summ.items()]
-        one_per_iter = any("len" in s.get("vars", {}) and "+1*trip" in s["vars"]["len"] for s in lens)
-        emits = set()
-        for p in paths:
-            n = len([e for e in p.calls() if e[1] in ("std::io::Write::write_all", "traits::bits::BitWrite::write_bits")])
-            emits.add((p.end[0], n))
-        per_iter_ok = all(n == 1 for (end, n) in emits if end in ("back",)) and all(n == 1 for (end, n) in emits if end == "return")
-        chk.expect("V2.length", key, nok >= 1 and one_per_iter and per_iter_ok,
-                   "codes::vbyte::%s: the returned length does not count exactly one emitted byte per loop iteration (summary %s, emissions %s)" % (key, lens, sorted(emits)),
-                   sample={"fn": key, "loop": str(lens)[:120]})
-    b = F.body("codes::vbyte::bit_len_vbyte")
-    ps = [p for p in mir.walk(b) if p.end[0] == "return"]
-    okb = len(ps) == 1 and len(ps[0].calls()) == 1 and ps[0].calls()[0][1] == "codes::vbyte::byte_len_vbyte" and \
-        ps[0].ret == ("binop", "Mul", ("const", 8, "usize"), ps[0].calls()[0][3]) and ps[0].calls()[0][2][0] == ("arg", 1, "value")
-    chk.expect("V2.length", "bit_len_vbyte", okb, "bit_len_vbyte(v) is not 8 * byte_len_vbyte(v)")
+    # V4: lengths, counts and continuation bits for every 64-bit value (value-partition interpreter); replaces the earlier
+    # loop-shape rule V2.length, which depended on the form of the loops rather than on what they compute
+    import rules_ivl
+    rules_ivl.run_c18(chk, F, "default", tier)
     # numeric safety of the byte-level functions
     chk.rule("V2.numeric", floor=20, doc="E3 obligations of the byte-level and bit-stream VByte functions (index bounds of the 10-byte buffer, shifts, arithmetic) modulo lemma L6 and stream-domain assumptions")
     rn.run_specs(chk, F, [s for s in rn.code_specs() if s.key.startswith("vbyte.")], "V2.numeric", "default")
